@@ -5,7 +5,8 @@
 From Coq Require Import ZArith List Bool PrimFloat.
 Import ListNotations.
 Require Import PyBase Solver SolverFacts SolverF SolveAll Eval EvalFacts EvalFacts2 EvalFacts3 EvalF EvalExamples.
-Require Import FSem FSolve EvalSolveAll EvalFortran.
+Require Import EvalSolveAll EvalFortran EvalExamples2 EvalDeps.
+Require Fsic.Fortran.FSem Fsic.Fortran.FSolve.
 Require Fsic.Solver.SolveAllFacts.
 Open Scope Z_scope.
 
@@ -96,6 +97,16 @@ Section C04_solver.
   Theorem C04_no_event_no_change d o t s :
     offset o = 0 -> log (fst (solve_t_M d o t s)) = log s -> fst (solve_t_M d o t s) = s.
   Proof. exact (no_event_no_change num sub absf ltb isfin zero ev before after d o t s). Qed.
+
+  (* AN EXPLICIT INFEASIBLE START IS REJECTED BY solve() AS A WHOLE (entry-point model Solver/SolveAll.v, any label type,
+     any lookup that resolves the span's labels): IndexError before anything is evaluated, the whole state unchanged *)
+  Theorem C04_solve_entry_infeasible_start_rejected (L : Type) (locate : L -> locres) d o (span : list L) x end_ s a b :
+    min_iter o <= max_iter o -> SolveAllFacts.locate_ok L locate span ->
+    length (status s) = length span ->
+    nth_error span a = Some x -> SolveAllFacts.resolves_end L d span end_ b -> (a <= b)%nat ->
+    feasible d (length span) a = false ->
+    solve_M num sub absf ltb isfin zero ev before after L locate d o span (Some x) end_ s = (s, Raise IndexError).
+  Proof. exact (solve_infeasible_start_rejected num sub absf ltb isfin zero ev before after L locate d o span x end_ s a b). Qed.
 End C04_solver.
 
 (* ============ Part B: the generated code — every program, every arithmetic, every function oracle ============ *)
@@ -139,6 +150,19 @@ Section C04_eval.
     shape (vals_of s') = shape (vals_of s) /\ sf_frame p s s'.
   Proof. exact (solve_t_P_touches_only_assigned_cells num add sub mul div pow neg absf ltb leb eqb zero fun1 fun2 flagged isfin prog d o t s p). Qed.
 
+  (* THE TITLE, for ordinary equations (every left-hand side unindexed): solving period t leaves every other period of
+     every variable, of status and of iterations bit-identical — all options, both spellings of t, feasible or not *)
+  Theorem C04_ordinary_equations_touch_only_t (prog : program num) d o t s p :
+    wf_vals (length (status s)) (vals_of s) ->
+    (prog_lags num prog <= lags d)%nat -> (prog_leads num prog <= leads d)%nat ->
+    (forall i k, In (i, k) (prog_lhs num prog) -> k = 0) ->
+    py_pos (length (status s)) t = Some p ->
+    let s' := fst (solve_t_P prog d o t s) in
+    forall q, q <> p ->
+      (forall i, nth_error (nth i (vals_of s') []) q = nth_error (nth i (vals_of s) []) q) /\
+      nth_error (status s') q = nth_error (status s) q /\ nth_error (iters s') q = nth_error (iters s) q.
+  Proof. exact (solve_t_P_ordinary_touches_only_t num add sub mul div pow neg absf ltb leb eqb zero fun1 fun2 flagged isfin prog d o t s p). Qed.
+
   (* exogenous variables, parameters, errors (rows no statement assigns) are bit-identical after ANY solve_t call *)
   Theorem C04_unassigned_rows_unchanged (prog : program num) d o t s i :
     (forall k, ~ In (i, k) (prog_lhs num prog)) -> (offset o = 0 \/ ~ In i (endo d)) ->
@@ -156,6 +180,17 @@ Section C04_eval.
                        acc_srv a = Some (Z.to_nat (Z.of_nat p + k)) /\ 0 <= Z.of_nat p + k < Z.of_nat n)
            (snd (eval_pass catch prog t v)).
   Proof. exact (eval_pass_accesses_in_span num add sub mul div pow neg absf ltb leb eqb zero fun1 fun2 flagged catch prog n t p v). Qed.
+
+  (* the SEMANTIC footprint of a right-hand side: its value, its exception and its access log are a function of the cells
+     served for its syntactic terms (x, k) at index t + k only — two stores of the same shape that agree there are
+     indistinguishable to it; in particular overwriting any other cell changes nothing *)
+  Theorem C04_rhs_depends_only_on_its_terms catch t (v v' : vals num) (e : expr num) :
+    shape v' = shape v ->
+    (forall x k q, In (x, k) (expr_reads num e) -> py_pos (nth x (shape v) 0%nat) (t + k) = Some q ->
+                   nth q (nth x v' []) zero = nth q (nth x v []) zero) ->
+    eval_expr num add sub mul div pow neg absf ltb leb eqb zero fun1 fun2 flagged catch t v' e =
+    eval_expr num add sub mul div pow neg absf ltb leb eqb zero fun1 fun2 flagged catch t v e.
+  Proof. exact (eval_expr_ext num add sub mul div pow neg absf ltb leb eqb zero fun1 fun2 flagged catch t v v' e). Qed.
 
   (* the same for the non-negative spelling of t, in the words of the property: served = requested, inside the span *)
   Theorem C04_reads_served_eq_requested catch (prog : program num) n t p (v : vals num) :
@@ -277,17 +312,17 @@ Section C04_fortran.
   Variables (sub : num -> num -> num) (absf : num -> num) (ltb : num -> num -> bool)
             (isfin : num -> bool) (zero : num).
   Variable evf : Z -> vals num -> vals num.          (* the {equations} block: arbitrary *)
-  Notation w_solve_t := (w_solve_t num sub absf ltb isfin zero evf).
+  Notation w_solve_t := (FSolve.w_solve_t num sub absf ltb isfin zero evf).
 
   (* an explicit request for an infeasible period: THE WHOLE ANSWER of the Fortran engine, for every option set with a
      valid `errors`, both spellings of t.  Always an exception (codes 13 / 14 -> FortranEngineError; SolutionError if
      the wrapper's pre-existing-non-finite test fires first; IndexError for an out-of-span offset); status, iterations,
      events untouched; values untouched unless a non-zero in-span offset was given (then the wrapper's copy remains) *)
-  Theorem C04_fortran_infeasible_rejected (fm : fmod) d o t s p ec :
-    min_iter o <= max_iter o -> w_ec (errors o) = Some ec ->
-    fm_lags fm = Z.of_nat (lags d) -> fm_leads fm = Z.of_nat (leads d) ->
+  Theorem C04_fortran_infeasible_rejected (fm : FSolve.fmod) d o t s p ec :
+    min_iter o <= max_iter o -> FSolve.w_ec (errors o) = Some ec ->
+    FSolve.fm_lags fm = Z.of_nat (lags d) -> FSolve.fm_leads fm = Z.of_nat (leads d) ->
     py_pos (length (status s)) t = Some p -> feasible d (length (status s)) p = false ->
-    ncols_of num (vals_of s) = Z.of_nat (length (status s)) ->
+    FSem.ncols_of num (vals_of s) = Z.of_nat (length (status s)) ->
     let n := Z.of_nat (length (status s)) in
     let q := Z.of_nat p + offset o in
     let verdict (v : vals num) : exn :=
@@ -295,23 +330,23 @@ Section C04_fortran.
     w_solve_t fm d o t s =
       if offset o =? 0 then (s, Raise (verdict (vals_of s)))
       else if (q <? 0) || (n <=? q) then (s, Raise IndexError)
-      else let v0 := copy_endo num zero d (vals_of s) p (Z.to_nat q) in (setvals num s v0, Raise (verdict v0)).
+      else let v0 := copy_endo num zero d (vals_of s) p (Z.to_nat q) in (FSolve.setvals num s v0, Raise (verdict v0)).
   Proof. exact (fortran_infeasible_rejected num sub absf ltb isfin zero evf fm d o t s p ec). Qed.
 
-  Theorem C04_fortran_infeasible_no_offset_no_change (fm : fmod) d o t s p ec :
-    min_iter o <= max_iter o -> w_ec (errors o) = Some ec ->
-    fm_lags fm = Z.of_nat (lags d) -> fm_leads fm = Z.of_nat (leads d) ->
+  Theorem C04_fortran_infeasible_no_offset_no_change (fm : FSolve.fmod) d o t s p ec :
+    min_iter o <= max_iter o -> FSolve.w_ec (errors o) = Some ec ->
+    FSolve.fm_lags fm = Z.of_nat (lags d) -> FSolve.fm_leads fm = Z.of_nat (leads d) ->
     py_pos (length (status s)) t = Some p -> feasible d (length (status s)) p = false ->
-    ncols_of num (vals_of s) = Z.of_nat (length (status s)) -> offset o = 0 ->
+    FSem.ncols_of num (vals_of s) = Z.of_nat (length (status s)) -> offset o = 0 ->
     fst (w_solve_t fm d o t s) = s /\
     (snd (w_solve_t fm d o t s) = Raise FortranEngineError \/ snd (w_solve_t fm d o t s) = Raise (SolutionError None)).
   Proof. exact (fortran_infeasible_no_offset_no_change num sub absf ltb isfin zero evf fm d o t s p ec). Qed.
 
-  Theorem C04_fortran_infeasible_never_served (fm : fmod) d o t s p ec :
-    min_iter o <= max_iter o -> w_ec (errors o) = Some ec ->
-    fm_lags fm = Z.of_nat (lags d) -> fm_leads fm = Z.of_nat (leads d) ->
+  Theorem C04_fortran_infeasible_never_served (fm : FSolve.fmod) d o t s p ec :
+    min_iter o <= max_iter o -> FSolve.w_ec (errors o) = Some ec ->
+    FSolve.fm_lags fm = Z.of_nat (lags d) -> FSolve.fm_leads fm = Z.of_nat (leads d) ->
     py_pos (length (status s)) t = Some p -> feasible d (length (status s)) p = false ->
-    ncols_of num (vals_of s) = Z.of_nat (length (status s)) ->
+    FSem.ncols_of num (vals_of s) = Z.of_nat (length (status s)) ->
     (exists e, snd (w_solve_t fm d o t s) = Raise e) /\
     status (fst (w_solve_t fm d o t s)) = status s /\ iters (fst (w_solve_t fm d o t s)) = iters s /\
     log (fst (w_solve_t fm d o t s)) = log s /\
@@ -340,9 +375,9 @@ Proof. exact infeasible_eval_pass_wraps. Qed.
 
 (* finding (Fortran engine, still present): infeasible period rejected, yet the wrapper's offset copy was left behind *)
 Theorem C04_fortran_infeasible_after_offset_refuted :
-  exists (fm : fmod) d o t s p,
+  exists (fm : FSolve.fmod) d o t s p,
     py_pos (length (status s)) t = Some p /\ feasible d (length (status s)) p = false /\
-    fm_lags fm = Z.of_nat (lags d) /\ fm_leads fm = Z.of_nat (leads d) /\ offset o <> 0 /\
+    FSolve.fm_lags fm = Z.of_nat (lags d) /\ FSolve.fm_leads fm = Z.of_nat (leads d) /\ offset o <> 0 /\
     snd (exF_solve_t fm d o t s) = Raise FortranEngineError /\
     nth_error (nth 0 (vals_of s) []) 0 = Some 1%float /\
     nth_error (nth 0 (vals_of (fst (exF_solve_t fm d o t s))) []) 0 = Some 2%float.
@@ -358,8 +393,10 @@ Print Assumptions C04_solve_t_frame.
 Print Assumptions C04_eval_pass_writes_only_lhs.
 Print Assumptions C04_parsed_ev_frame.
 Print Assumptions C04_solve_t_touches_only_assigned_cells.
+Print Assumptions C04_ordinary_equations_touch_only_t.
 Print Assumptions C04_unassigned_rows_unchanged.
 Print Assumptions C04_reads_in_span.
+Print Assumptions C04_rhs_depends_only_on_its_terms.
 Print Assumptions C04_reads_served_eq_requested.
 Print Assumptions C04_feasible_pass_no_index_error.
 Print Assumptions C04_monitored_solve_t_eq.
@@ -368,6 +405,7 @@ Print Assumptions C04_default_positions_feasible.
 Print Assumptions C04_eval_pass_gauss_seidel.
 Print Assumptions C04_rejected_preexisting_after_offset_refuted.
 Print Assumptions C04_infeasible_eval_pass_wraps.
+Print Assumptions C04_solve_entry_infeasible_start_rejected.
 Print Assumptions C04_no_event_no_change_or_finding3.
 Print Assumptions C04_no_event_no_change.
 Print Assumptions C04_solve_seq_frame_feasible.
@@ -380,3 +418,6 @@ Print Assumptions C04_fortran_infeasible_never_served.
 Print Assumptions C04_fortran_infeasible_after_offset_refuted.
 Print Assumptions ex_hyps_satisfiable.
 Print Assumptions exF_hyps.
+Print Assumptions ex_entry_hyps.
+Print Assumptions ex_entry_locate_ok.
+Print Assumptions ex_ordinary.
